@@ -210,18 +210,29 @@ Lv0 == [fd |-> 0, enums |-> << >>, members |-> << >>, idbase |-> NoId,
         rng |-> << >>, rmsg |-> "", rtag |-> "", len |-> << >>, lmsg |-> "", ltag |-> "",
         pats |-> << >>, hasDef |-> FALSE, def |-> << >>]
 \* lay: where the typedefs are written ("top": module level, "local": inside the container of the leaf, "xmod": the
-\* innermost typedef in module a, the leaf in module b) - the meaning of a chain does not depend on it
+\* innermost typedef in module a, the leaf in module b; "xm-s-naming-spelling": the s innermost typedefs in module a,
+\* the others in module b, typedefs of the two modules with the same / mirrored / different local names, references
+\* inside a module bare or with the module's own prefix) - the meaning of a chain does not depend on it: a chain is
+\* a sequence of DISTINCT typedefs whatever they are called, so it always ends in its built-in type
+\* mod: the module the leaf BELONGS to (whose statements put the node into the data tree: the module that uses a
+\* grouping, that augments, that a submodule belongs to) - not necessarily the file the leaf statement is written in
 \* ctx: what the leaf statement carries besides its type and where it stands (see LeafCtxs) - the type of a leaf,
 \* the compile verdict on its type statement and on the defaults along its chain do not depend on it
 Chain(k, levels) == [k |-> k, mod |-> "a", lay |-> "top", ctx |-> "plain", idents |-> << >>, levels |-> levels]
 \* leaf contexts: mandatory / config / status / if-feature (feature enabled) on the leaf itself; the leaf inside a
 \* choice (explicit case, shorthand case, the default case), in a list entry (not a key), in a presence container,
-\* defined in a grouping and brought in by uses, made mandatory by a refine of that uses
+\* defined in a grouping and brought in by uses, made mandatory by a refine of that uses;
+\* the leaf statement written in another file than the module the leaf belongs to: in a grouping of module a used by
+\* module b (directly, through a second grouping, inside a container of the grouping), in an augment statement (the
+\* leaf lands in the container of module a and belongs to the augmenting module), in a submodule of its module (in a
+\* container of the submodule, or in a grouping of the submodule used by the module)
+ForeignCtxs == {"uses-foreign", "uses-foreign-mandatory", "uses-foreign-nested", "uses-foreign-container"}
+ElsewhereCtxs == ForeignCtxs \cup {"augment", "submodule", "submodule-uses"}
 LeafCtxs == {"plain", "mandatory", "config-false", "state-mandatory", "deprecated", "obsolete", "if-feature", "mandatory-if-feature",
              "case", "short-case", "case-mandatory", "default-case", "list", "list-mandatory", "presence", "presence-mandatory",
-             "uses", "uses-mandatory", "refine-mandatory"}
+             "uses", "uses-mandatory", "refine-mandatory"} \cup ElsewhereCtxs
 MandatoryCtx(c) == c \in {"mandatory", "state-mandatory", "mandatory-if-feature", "case-mandatory", "list-mandatory", "presence-mandatory",
-                          "uses-mandatory", "refine-mandatory"}
+                          "uses-mandatory", "refine-mandatory", "uses-foreign-mandatory"}
 \* compiled type
 CT0(k) == [k |-> k, fd |-> 0, parts |-> (IF k \in NumKinds THEN <<WidthOf(k)>> ELSE << >>), rl |-> << >>, lparts |-> <<Part(Zero, MaxLen)>>, ll |-> << >>, pats |-> << >>,
            enums |-> << >>, acc |-> {}, unj |-> {}, members |-> << >>, sub |-> FALSE, hasDef |-> FALSE, def |-> << >>]
